@@ -42,7 +42,8 @@ SCEN = ["params_value", "params_vary", "params_minmax", "params_expr",
         "prep_list_via_fit", "returned_params", "returned_params_unpassed",
         "prep_list_unpassed", "force_array", "rater_arrays", "model_args",
         "rate_names_list", "rate_training_set_arrays",
-        "handed_out_preproc_attrs", "full_respec", "full_respec"]
+        "handed_out_preproc_attrs", "full_respec", "full_respec",
+        "returned_model_defaults"]
 
 
 def shards(tier):
@@ -283,6 +284,42 @@ def scenario(rec, rng, cid):
                   "a fresh curve fitted once with the edited values" % d,
                   case)
         rec.evaluated(dg=(sc, kw, o0, o1, spec))
+    elif sc == "returned_model_defaults":
+        # the parameter defaults a model hands out are the caller's: editing
+        # them in place (and fitting with them) must not change what later
+        # default-initialised fits or later callers get
+        from nanite import model
+        mk = spec["model"]
+        md = model.models_available[mk]
+        before = core.fp(md.get_parameter_defaults())
+        a, b = twins()
+        for t in (a, b):
+            t.apply_preprocessing(list(pipe))
+        p = md.get_parameter_defaults() if rng.random() < .5 \
+            else model.get_init_parms(mk)
+        geo = [n for n in p if n not in ("E", "contact_point", "baseline")
+               and not p[n].vary]
+        n_ = geo[int(rng.integers(len(geo)))] if geo else "E"
+        p[n_].value = p[n_].value * float(rng.uniform(.3, .7))
+        p["E"].value = p["E"].value * 2
+        case["edit"] = {"parameter": n_, "value": p[n_].value}
+        g.call("fit_model", a.fit_model, model_key=mk, params_initial=p)
+        after = core.fp(md.get_parameter_defaults())
+        rec.check(before == after,
+                  "aliasing/model-defaults-shared-with-caller",
+                  "get_parameter_defaults() of %s returns other values after "
+                  "a caller edited the object it got earlier" % mk, case)
+        b.fit_model(model_key=mk)
+        pi = b.fit_properties["params_initial"]
+        d0 = md.get_parameter_defaults()
+        rec.event("twin states compared")
+        rec.check(all(pi[k].value == d0[k].value for k in pi
+                      if k != "contact_point") and before == after,
+                  "history-dependence/default-fit-after-edited-defaults",
+                  "a default-initialised fit starts from %r after another "
+                  "caller edited the defaults it was handed"
+                  % {k: pi[k].value for k in pi}, case)
+        rec.evaluated(dg=(sc, mk, n_, spec))
     elif sc == "full_respec":
         # "the effect of a call depends only on the argument values at the
         # time of the call": a call that spells out every setting gives the
